@@ -1289,7 +1289,13 @@ class DocutilsRenderer(RendererProtocol):
 
         for key, value in data.items():
             if not isinstance(value, str | int | float | date | datetime):
-                value = json.dumps(value)
+                # (YAML values such as !!binary or !!set are not JSON serializable)
+                value = json.dumps(
+                    value,
+                    default=lambda o: sorted(map(str, o))
+                    if isinstance(o, set)
+                    else str(o),
+                )
             value = str(value)
             body = nodes.paragraph()
             body.source, body.line = self.document["source"], line
